@@ -199,6 +199,18 @@ def check(prog, res, tier):
                                  'dict object updated and written twice gives two encodings)', func_where(wmfi),
                         'record = iso8583.dumps(obj, ...); super().write(record)', chk_two, rule='C06.c.fresh-encoding'))
 
+    # ---- C06.a (acceptance) the writer refuses no message the reader would accept: an encoded record of 1..MAX bytes is written
+    def chk_accept(p, mode):
+        if p.outcome != 'raise':
+            return []
+        exc = p.value
+        return [definite(f'IpmWriter.write refuses a message whose encoded record has 1..6000 bytes ({exc!r}): the readers accept '
+                         f'records up to the configured maximum, so what can be read back cannot be written',
+                         getattr(exc, 'raise_node', None) or exc.node, firm=True)]
+    res.add(runs2.judge('C06.a', 'IpmWriter.write accepts every message whose encoded record is within the maximum record length '
+                                 'the readers accept', func_where(wmfi), 'record = iso8583.dumps(obj, ...); super().write(record)',
+                        chk_accept, rule='C06.a.accept'))
+
     # ---- C06.b no shared mutable state
     du = DecodeUnits(prog, res)
     rr = ReaderRuns(prog, res, du)
